@@ -45,6 +45,7 @@ func dynProfile(preserve, bluegreen bool) Profile {
 	}
 	p.SvcAnn = nil
 	p.MaxIng = 4
+	p.RotateTogether = true
 	return p
 }
 
@@ -71,7 +72,10 @@ func genDynHistory(t *rapid.T, p Profile, kinds []string, maxBatches int) HistCa
 	nb := g.intn("nbatches", 1, maxBatches)
 	for b := 0; b < nb; b++ {
 		nops := g.intn("nops", 1, 3)
-		var ops []world.Op
+		ops := g.rotateTogether()
+		if len(ops) > 0 {
+			nops = 0
+		}
 		for i := 0; i < nops; i++ {
 			if op, ok := g.genOp(kinds); ok {
 				if op.Op != "delete" && op.Obj.Kind == world.KEndpoints {
